@@ -299,9 +299,11 @@ def report_violations(prop_id, mod, seed, args, viols, t0, agg, pre, st=None):
     # group by rule; minimise one representative per rule (at most 3 rules)
     by_rule = {}
     for v in viols:
-        by_rule.setdefault(v["rule"], []).append(v)
-    for rule, vs in list(by_rule.items())[:3]:
+        gk = v["rule"] + ("|" + str(v.get("msg"))[:70] if v["rule"] == "world_unbuildable" else "")
+        by_rule.setdefault(gk, []).append(v)
+    for gk, vs in list(by_rule.items())[:4]:
         v = vs[0]
+        rule = v["rule"]
         spec, sc = v["spec"], v.get("scenario")
         if not args.no_minimize:
             spec, sc, info = minimize.minimise(prop_id, mod, spec, sc, rule)
